@@ -959,6 +959,27 @@ func (s *State) lookup(fr *Frame, in *ssa.Lookup) Value {
 }
 
 func (s *State) mapLookup(m MapRef, k Value) (Value, bool) {
+	if ss, ok := k.(*SymStr); ok {
+		if _, conc := s.concreteStr(ss); !conc {
+			// symbolic key: compare with every (concrete) key of the map
+			md := s.mapData(m, false)
+			for _, ks := range sortedKeys(md) {
+				e := md.M[ks]
+				eq := s.strEq(ss, e.K)
+				hit := false
+				switch c := eq.(type) {
+				case bool:
+					hit = c
+				case *Term:
+					hit = s.decide(c, "mapkey")
+				}
+				if hit {
+					return copyVal(e.V), true
+				}
+			}
+			return nil, false
+		}
+	}
 	ks := s.mapKey(k)
 	md := s.mapData(m, false)
 	if s.AccessLog != nil {
